@@ -283,3 +283,39 @@ Proof.
   assert (a' = t') by (rewrite (get_put_tree w ti t a' Gt) in G'; now injection G'). subst t'.
   apply (not_in_put w ti t a' m H Gt Hmt). now apply Gone.
 Qed.
+
+(* del tree[key]: the node found by the key and its branch are gone *)
+Theorem deleted_gone w ti k t n s :
+  WFw w -> get_tree w ti = Some t -> getitem t k = Some [n] -> get_node n (forest_of t) = Some s ->
+  exists t', get_tree (snd (op_del w ti k)) ti = Some t' /\ fst (op_del w ti k) = Ok [] /\
+    forall m, In m (ids_t s) -> ~ In m (ids (forest_of t')) /\ ~ In m (reg t').
+Proof.
+  intros H Gt Gk Gn. unfold op_del. rewrite Gt, Gk. now apply (removed_branch_gone w ti n t s).
+Qed.
+
+(* filter(): every branch the predicate rejected is gone *)
+Lemma apply_facts_gone acts : forall t, WF t -> forall v, In (FBranch v) acts ->
+  ~ In v (ids (forest_of (fold_left apply_fact acts t))).
+Proof.
+  induction acts as [|a acts IH]; intros t H v Hv; [contradiction|]. cbn [fold_left].
+  destruct (WF_apply_fact t a H) as (W1 & I1). destruct Hv as [->|Hv]; [|now apply IH].
+  destruct (WF_apply_facts acts _ W1) as (_ & I2). intros Y. apply I2 in Y. revert Y. cbn [apply_fact].
+  destruct (in_dec Nat.eq_dec v (ids (forest_of t))) as [Hin|Hin].
+  - destruct (remove_branch_complete t v H Hin) as (a' & E). rewrite E.
+    destruct (WF_remove_branch t v a' H E) as (Wa & s & Ps & Rs & P).
+    assert (ND : NoDup (ids_t s ++ ids (forest_of a'))) by (apply (Permutation_NoDup P), H).
+    intros Y. apply (NoDup_app_disj _ _ v ND); [|assumption]. rewrite ids_t_unfold, Rs. now left.
+  - intros Y. apply Hin. cbn [apply_fact] in I1. now apply I1.
+Qed.
+
+Theorem filtered_gone w ti n vd t ch must acts stopped failed :
+  WFw w -> get_tree w ti = Some t -> children_of n (forest_of t) = Some ch ->
+  fvisit vd (T 0 dummy_info ch) false = (must, acts, stopped, failed) ->
+  exists t', get_tree (snd (op_filter w ti n vd)) ti = Some t' /\
+    forall v, In (FBranch v) acts -> ~ In v (ids (forest_of t')) /\ ~ In v (reg t').
+Proof.
+  intros H Gt Gc Fv. assert (Wt := WFw_tree w ti t H Gt). unfold op_filter. rewrite Gt, Gc, Fv. cbn [snd].
+  eexists. split; [now apply (get_put_tree w ti t)|]. intros v Hv.
+  destruct (WF_apply_facts acts t Wt) as (W' & _). assert (G := apply_facts_gone acts t Wt v Hv).
+  split; [exact G|]. intros Y. apply G. apply (Permutation_in _ (wf_reg _ W') Y).
+Qed.
